@@ -175,9 +175,9 @@ fn regime(steps: &[f64], max_step: f64) -> &'static str {
     }
     s.sort_by(|a, b| a.partial_cmp(b).unwrap());
     let med = s[s.len() / 2];
-    if med > 1.5 * max_step {
-        "step-unbounded"
-    } else if med >= 0.5 * max_step {
+    // for the ExactNormal integrator the step size is a rotation angle: pi/2 (half of the default max_step_size) and above
+    // is the regime of the known findings, whatever the adaptation method
+    if med >= 0.5 * max_step {
         "step-large"
     } else {
         "step-regular"
